@@ -44,7 +44,8 @@ def configs(tier):
     c2.update({"LeafKinds": {"W", "CF", "CD", "MV", "RM"}, "AllowPairs": True, "MaxDo": 2, "MaxSteps": 3})
     out.append(("pairs+remove-3calls", c2, "export", None))
     cl = base_constants()
-    cl.update({"AllowSetLimit": True, "AllowSelective": False, "Limits": {0, 1, 2, 100}, "MaxDo": 3, "MaxSteps": 5,
+    cl.update({"AllowSetLimit": True, "AllowSelective": False,
+               "Limits": {0, 1, 100} if tier == "quick" else {0, 1, 2, 100}, "MaxDo": 3, "MaxSteps": 5,
                "LeafKinds": {"W"}})
     out.append(("limit-changes-5calls", cl, "export", None))
     ci = base_constants()
@@ -58,7 +59,7 @@ def configs(tier):
     cs = base_constants()
     cs.update({"LeafKinds": {"W", "CF", "CD", "MV"}, "AllowPairs": True, "MaxDo": 6, "MaxSteps": 10,
                "Limits": {2, 3, 100}, "InitTreesH": tlc.Sub("MCInitTreesH")})
-    out.append(("simulation-10calls", cs, "sim", 1500 if tier == "quick" else 20000))
+    out.append(("simulation-10calls", cs, "sim", 1000 if tier == "quick" else 20000))
     if tier == "thorough":
         c4 = base_constants()
         c4.update({"MaxDo": 4, "MaxSteps": 5})
